@@ -294,10 +294,9 @@ impl<F: Read + Write + Seek> Flusher<F> for FlushBuffer {
             stream.buf_offset_from_start,
             stream.buffer.filled_slice(),
         )?;
-        debug_assert_eq!(
-            minialloc.read().unwrap().dir_entry(stream.stream_id).stream_len,
-            stream.total_len
-        );
+        // The stream may also have been resized through another handle.
+        stream.total_len =
+            minialloc.read().unwrap().dir_entry(stream.stream_id).stream_len;
         Ok(())
     }
 }
@@ -359,6 +358,12 @@ fn write_data_to_stream<F: Read + Write + Seek>(
     buf_offset_from_start: u64,
     buf: &[u8],
 ) -> io::Result<()> {
+    // The stream may have been truncated through another handle since this
+    // buffer window was positioned; like a write past the end of a file, the
+    // gap then reads as zeros.
+    if buf_offset_from_start > minialloc.dir_entry(stream_id).stream_len {
+        resize_stream(minialloc, stream_id, buf_offset_from_start)?;
+    }
     let (old_start_sector, old_stream_len) = {
         let dir_entry = minialloc.dir_entry(stream_id);
         debug_assert_eq!(dir_entry.obj_type, ObjType::Stream);
